@@ -56,13 +56,14 @@ PROP = {
              "determ: each case = (seed, 30-block script [thorough: 120]) with 2-7 operations per block out of: signed bank send, EVM value transfer (dynamic-fee MsgEthereumTx), signed oracle "
              "create-price by one or both validators (inside and outside the nonce window, agreeing or not: final price, forced seal on validator-set "
              "change, failed round), RegisterOperator, OptIntoAVS, LST deposit / delegate / undelegate of two assets by six stakers (ties in staker "
-             "power, incl. two tail stakers with equal value through different assets), dogfood slash, AVS tasks with results whose statistical "
-             "period ends in the run; block times 5s..7d so that minute/hour/day/week epochs end (fee distribution to stakers every minute epoch, "
+             "power, incl. two tail stakers with equal value through different assets), dogfood slash, tasks of two extra AVSs (different assets / operator sets, real OptIn) whose statistical "
+             "periods end in the same epoch; one price round in three is left unanswered; block times 5s..7d so that minute/hour/day/week epochs end (fee distribution to stakers every minute epoch, "
              "voting-power update and validator-set change at day epochs, undelegation maturity); executed by 3 [thorough: 5] SEPARATE processes "
-             "with GOMAXPROCS 1,2,4[,3,8]; plus one directed regression scenario (unpriced AVS asset, failing OptIntoAVS). distinct = sha1 of the "
+             "with GOMAXPROCS 1,2,4[,3,8], the last of which re-creates the oracle's memory from the store (C14 restart hook) at seed-drawn "
+             "heights after a quiet window (~3 restarts per case, biased to the end of a submission window); plus one directed regression scenario (unpriced AVS asset, failing OptIntoAVS). distinct = sha1 of the "
              "whole case line; non-trivial = all cases (every script changes state in every block)."),
     "explanation": ("A Gallina function is deterministic by construction, so the theorems are about the places where Go injects a schedule into "
-                    "consensus code: every range over a map is modelled as a fold over a list whose order is the schedule, and 35 theorems state "
+                    "consensus code: every range over a map is modelled as a fold over a list whose order is the schedule, and 36 theorems state "
                     "for ALL permutations that what reaches the store / ABCI response is the same (writes to distinct keys as finite maps, "
                     "additive updates, lists compared after the code's sort, early-exit loops incl. their read count), or refute it with a witness "
                     "where it is false (returned slices of SealRound, deleted keys / leftover variable in recache, unstable sort with ties, early "
@@ -88,6 +89,7 @@ PROP = {
         "of the per-site models (they are exercised by the replicated runs only)",
         "the tx stream contains validly signed oracle price transactions only (no forged signatures); of the EVM only plain value transfers "
         "are driven (contract calls / precompile calls through the gateway belong to C19 / C09)",
-        "no restart inside a run (C14 owns restart equivalence; the recache loops it relies on are proved schedule-independent here)",
+        "restarts: one process per case restarts the oracle's memory, only after 4 blocks without price submission and validator-set change "
+        "(restart equivalence in general, with its listed defects, is C14's; the recache loops it relies on are proved schedule-independent here)",
     ],
 }
